@@ -98,7 +98,7 @@ func runFor(c tcase, grace time.Duration) outcome {
 	loc.SetControl(ctl)
 	ctx := drv.Ctx()
 	bs := core.Bindings{"x": "b", "n": 41.0}
-	if c.Pos != "run" {
+	if c.Pos != "run" && c.Pos != "run-nolocation" {
 		rule := core.Map{"when": map[string]interface{}{"pattern": map[string]interface{}{"go": "?x", "num": "?n"}}}
 		if strings.HasPrefix(c.Pos, "condition") {
 			leaf := map[string]interface{}{"code": "(" + wrapCond(c.Script) + ")"}
@@ -132,6 +132,11 @@ func runFor(c tcase, grace time.Duration) outcome {
 		switch c.Pos {
 		case "run":
 			v, err := loc.RunJavascript(ctx, c.Script.Code(), nil, &bs, nil)
+			o.err = drv.ErrStr(err)
+			o.value = fmt.Sprint(v)
+		case "run-nolocation":
+			// a script run for no location (the service's /api/sys/util/js, health checks)
+			v, err := core.RunJavascript(nil, &bs, nil, c.Script.Code())
 			o.err = drv.ErrStr(err)
 			o.value = fmt.Sprint(v)
 		default:
@@ -277,6 +282,75 @@ func siblingScopes(r *rep.Report) {
 // Missing library function => ReferenceError on the node; a library that does not compile =>
 // error on the node; another library => its own value; in any order, in conditions, actions
 // and RunJavascript.
+// brokenLibraryAfterReload: a rule is stored while the library its condition names is fine; the
+// location is loaded again (nothing parsed is cached then) with that library broken.  An event
+// that reaches the rule reports the script that does not compile; it does not pass in silence.
+func brokenLibraryAfterReload(r *rep.Report) {
+	for _, kind := range drv.Kinds {
+		for _, pos := range []string{"condition", "action"} {
+			st := drv.MustMem()
+			good := core.DefaultControl()
+			good.Verbosity = core.NOTHING
+			good.Libraries = map[string]string{"lib": "function scale(x) { return 2 * x; }"}
+			loc, err := drv.NewLoc("K", kind, st)
+			if err != nil {
+				continue
+			}
+			loc.SetControl(good)
+			rule := core.Map{"when": map[string]interface{}{"pattern": map[string]interface{}{"go": "now"}}}
+			if pos == "condition" {
+				rule["condition"] = map[string]interface{}{"code": "scale(21) > 0", "libraries": []interface{}{"lib"}}
+				rule["action"] = map[string]interface{}{"code": "'acted'"}
+			} else {
+				rule["action"] = map[string]interface{}{"code": "scale(21)", "opts": map[string]interface{}{"libraries": []interface{}{"lib"}}}
+			}
+			if _, err := loc.AddRule(drv.Ctx(), "lr", rule); err != nil {
+				r.Violate("", "AddRule with a library failed: "+err.Error(), nil)
+				continue
+			}
+			fr1, cond1 := loc.ProcessEvent(drv.Ctx(), core.Map{"go": "now"})
+			bad := core.DefaultControl()
+			bad.Verbosity = core.NOTHING
+			bad.Libraries = map[string]string{"lib": "function scale(x) { return ("}
+			loc2, err := drv.NewLoc("K", kind, st)
+			if err != nil {
+				r.Violate("", "reload failed: "+err.Error(), nil)
+				continue
+			}
+			loc2.SetControl(bad)
+			fr2, cond2 := loc2.ProcessEvent(drv.Ctx(), core.Map{"go": "now"})
+			r.Case(true, fmt.Sprint("broken-library-after-reload", kind, pos))
+			r.Count("broken_library_after_reload_cases", 1)
+			failed := cond2 != nil
+			nodes := 0
+			if fr2 != nil {
+				if fr2.Disposition != nil && fr2.Disposition != core.Complete {
+					failed = true
+				}
+				for _, er := range fr2.Children {
+					nodes++
+					for _, erc := range er.Children {
+						if erc.Disposition != nil && erc.Disposition != core.Complete {
+							failed = true
+						}
+						for _, era := range erc.Children {
+							if era.Disposition != nil && era.Disposition != core.Complete {
+								failed = true
+							}
+						}
+					}
+				}
+			}
+			wit := rep.J{"state": kind, "library_used_by": pos, "first_life_values": fmt.Sprint(fr1.Values), "first_life_condition": cond1, "second_life_values": fmt.Sprint(fr2.Values), "second_life_condition": cond2, "second_life_rule_nodes": nodes}
+			if cond1 != nil || len(fr1.Values) != 1 {
+				r.Violate("", "a rule with a library did not run while the library was fine", wit)
+			} else if !failed {
+				r.Violate("", "an event reached a rule whose script no longer compiles (its library is broken since the reload) and reported no error anywhere", wit)
+			}
+		}
+	}
+}
+
 func libraryScripts(r *rep.Report) {
 	ctl := core.DefaultControl()
 	ctl.Verbosity = core.NOTHING
@@ -420,6 +494,7 @@ func main() {
 	encodedScripts(r)
 	siblingScopes(r)
 	libraryScripts(r)
+	brokenLibraryAfterReload(r)
 	g := gen.New(e.BatchSeed())
 	disabled := os.Getenv("C14_TIMEOUTS") == "off"
 	if disabled {
@@ -433,7 +508,7 @@ func main() {
 			if disabled && (sc.Family == "nonterminating" || sc.Family == "oversleep") {
 				continue
 			}
-			for _, pos := range []string{"run", "condition", "action", "condition-or", "condition-and", "condition-not"} {
+			for _, pos := range []string{"run", "run-nolocation", "condition", "action", "condition-or", "condition-and", "condition-not"} {
 				if strings.HasPrefix(pos, "condition") && sc.Family == "invalid" {
 					continue // an invalid condition is wrapped and would change the program; invalid is covered by run/action
 				}
@@ -445,6 +520,9 @@ func main() {
 					settings = []string{"disabled"}
 				}
 				for _, setting := range settings {
+					if pos == "run-nolocation" && setting == "control" {
+						continue // without a location there is no location control: the system default applies
+					}
 					c := tcase{Script: sc, Setting: setting, Pos: pos, State: drv.Kinds[g.Intn(2)], LimitMs: 50 + g.Intn(6)*50}
 					if setting != "control" {
 						c.LimitMs = int(defaultLimit / time.Millisecond)
